@@ -237,8 +237,8 @@ def prepare(hyps: List[z3.ExprRef], goal: z3.ExprRef) -> Tuple[List[z3.ExprRef],
     return out, stats
 
 
-NATIVE_MS = 4000
-QI_MAX = int(os.environ.get("VERIF_QI_MAX", "8000"))
+NATIVE_MS = 60000  # stage 1 is bounded by the number of instances (deterministic), not by time
+QI_MAX = int(os.environ.get("VERIF_QI_MAX", "50000"))
 
 
 def check(hyps: List[z3.ExprRef], goal: z3.ExprRef, timeout_ms: int = 10000, allow_stage2: bool = True, skip_stage1: bool = False):
@@ -253,7 +253,7 @@ def check(hyps: List[z3.ExprRef], goal: z3.ExprRef, timeout_ms: int = 10000, all
     stats = {"backend": "z3-ematching"}
     if not skip_stage1:
         s = z3.Solver()
-        s.set("timeout", min(timeout_ms, NATIVE_MS))
+        s.set("timeout", NATIVE_MS)
         s.set("smt.mbqi", False)
         s.set("smt.qi.max_instances", QI_MAX)
         for h in hyps:
@@ -269,6 +269,19 @@ def check(hyps: List[z3.ExprRef], goal: z3.ExprRef, timeout_ms: int = 10000, all
     if not allow_stage2:
         stats["reason"] = "not proved by bounded E-matching; stage-2 budget of this unit exhausted"
         return "unknown", None, stats
+    # stage 1b: the same with a ten times larger instance bound (guards against a verdict that flips on a
+    # harmless edit because a proof needs a few more instances)
+    s = z3.Solver()
+    s.set("timeout", 6000)
+    s.set("smt.mbqi", False)
+    s.set("smt.qi.max_instances", QI_MAX * 10)
+    for h in hyps:
+        s.add(h)
+    s.add(z3.Not(goal))
+    if s.check() == z3.unsat:
+        stats["backend"] = "z3-ematching-x10"
+        stats["ms"] = int((time.time() - t0) * 1000)
+        return "unsat", None, stats
     fs, st2 = prepare(hyps, goal)
     fs = abstract_strings(fs)
     stats.update(st2)
